@@ -154,6 +154,26 @@ func (m *Model) ruleDSN(r *Results) {
 				switch f.Name() {
 				case "Encode":
 					encoded[recv] = true
+					// (`withOptions(query).Encode()`: a helper that fills in the values it is handed
+					// and returns them)
+					if hc, ok := recv.(*ssa.Call); ok {
+						if h := hc.Common().StaticCallee(); h != nil && m.inPkg(h) && len(h.Blocks) > 0 {
+							for i, p := range h.Params {
+								if !isNamed(p.Type(), "net/url", "Values") || i >= len(hc.Common().Args) {
+									continue
+								}
+								all := true
+								for _, ret := range returnsOf(h) {
+									if len(ret.Results) != 1 || stripConv(ret.Results[0]) != ssa.Value(p) {
+										all = false
+									}
+								}
+								if all {
+									encoded[stripConv(hc.Common().Args[i])] = true
+								}
+							}
+						}
+					}
 				case "Set", "Add", "Del":
 					k, _ := constString(c.Common().Args[1])
 					muts = append(muts, mut{recv, m.instrPos(c), k})
